@@ -160,7 +160,9 @@ func runC19(c *Ctx) {
 	// C19.write-under-lock
 	c.ruleWriteUnderLock("C19.write-under-lock")
 
-	c.pairingRule("C19.pairing", func(fn *ssa.Function) bool { return p.InRepo(fn) && PkgPathOf(fn) != PkgRoot || (PkgPathOf(fn) == PkgRoot && fn.Signature.Recv() != nil && typeShort(fn.Signature.Recv().Type()) != "eventlogger.Broker") }, false)
+	c.pairingRule("C19.pairing", func(fn *ssa.Function) bool {
+		return p.InRepo(fn) && PkgPathOf(fn) != PkgRoot || (PkgPathOf(fn) == PkgRoot && fn.Signature.Recv() != nil && typeShort(fn.Signature.Recv().Type()) != "eventlogger.Broker")
+	}, false)
 }
 
 // ruleEventEscape: in every Node.Process implementation of the repository, the
